@@ -7,6 +7,8 @@
    gen_prev_ok xt pt                            handle_append_entries: the entry at prev_log_index matches prev_log_term
    gen_commit_pick len qn                       try_advance_commit_index: position picked in the sorted match list
    gen_commit_term_ok et cur                    try_advance_commit_index: the entry at the new index is of the current term
+   gen_entries_need_prev                        get_entries_for_follower sends entries only with a prev entry still in the log
+   gen_gap_refused                              append_leader_entries refuses an entry that is not the direct successor of the log
    (lastnew = index of the last entry the request carried, or prev_i when it carried none)"""
 import os
 import re
@@ -141,6 +143,34 @@ def generate(repo):
     except Exception as ex:
         items["commit_pick"] = items["commit_term_ok"] = "miss:%s" % ex
 
+    # ---- get_entries_for_follower: entries only together with a prev entry the leader can still name
+    need_prev = "false"
+    try:
+        src = strip_comments(read(repo, "tensor_chain/src/raft.rs"))
+        _, body = find_fn(src, "get_entries_for_follower")
+        m = re.search(r"let\s+(\w+)\s*=\s*if\s+next_idx\s*<=\s*1\s*\{\s*Some\(\(0,\s*0\)\)\s*\}\s*else\s*\{(.*?)\}\s*;", body, re.S)
+        if m and re.search(r"\.map\(", m.group(2)) and not re.search(r"map_or\(", m.group(2)):
+            pv = m.group(1)
+            if re.search(r"let\s+entries\s*=\s*if\s+%s\.is_some\(\)\s*\{(.*?)\}\s*else\s*\{\s*Vec::new\(\)\s*\}\s*;" % pv, body, re.S):
+                need_prev = "true"
+        items["entries_need_prev"] = "translated"
+    except Exception as ex:
+        items["entries_need_prev"] = "miss:%s" % ex
+
+    # ---- append_leader_entries: an entry beyond the end is pushed only as the direct successor of the log
+    gap = "false"
+    try:
+        src = strip_comments(read(repo, "tensor_chain/src/raft.rs"))
+        _, body = find_fn(src, "append_leader_entries")
+        m = re.search(r"if\s+entry\.index\s*>\s*(\w+)\s*\{(.*?)persistent\.log\.push\(", body, re.S)
+        if not m:
+            raise KeyError("push branch not found")
+        if re.search(r"if\s+entry\.index\s*!=\s*%s\s*\+\s*1\s*\{\s*return\s+false\s*;\s*\}" % m.group(1), m.group(2)):
+            gap = "true"
+        items["gap_refused"] = "translated"
+    except Exception as ex:
+        items["gap_refused"] = "miss:%s" % ex
+
     text = HEADER + """From NV.Common Require Import Base.
 Open Scope N_scope.
 
@@ -159,5 +189,9 @@ Definition gen_prev_ok (xt pt : N) : bool := %s.
 Definition gen_commit_pick (len qn : N) : N := %s.
 (* try_advance_commit_index: term guard on the entry at the new commit index *)
 Definition gen_commit_term_ok (et cur : N) : bool := %s.
-""" % (ack, com, stale, quorum, vote, prev, pick, cterm)
+(* get_entries_for_follower: entries are sent only when the prev entry is still in the log (or next_index <= 1) *)
+Definition gen_entries_need_prev : bool := %s.
+(* append_leader_entries: an entry beyond the end is pushed only if it is the direct successor of the log *)
+Definition gen_gap_refused : bool := %s.
+""" % (ack, com, stale, quorum, vote, prev, pick, cterm, need_prev, gap)
     return text, items
